@@ -190,6 +190,9 @@ struct Slot {
 struct Ctl {
     slots: Mutex<Vec<Slot>>,
     cv: Condvar,
+    /// park workers at the read-path points too (`read_start`, `read_pinned`): only the
+    /// read/retirement race cases want that; the Conc model has no such step
+    park_reads: std::sync::atomic::AtomicBool,
 }
 
 thread_local! {
@@ -199,6 +202,9 @@ thread_local! {
 impl feoxdb::verif::sched::Controller for Ctl {
     fn point(&self, name: &'static str) {
         let Some(id) = WORKER.with(|w| w.get()) else { return };
+        if name.starts_with("read_") && !self.park_reads.load(std::sync::atomic::Ordering::SeqCst) {
+            return;
+        }
         let mut g = self.slots.lock().unwrap();
         g[id].phase = Phase::AtPoint(name);
         self.cv.notify_all();
@@ -466,8 +472,12 @@ fn drive(out: &mut Out, ctl: &Arc<Ctl>, dir: &str, idx: u64, cfg: &Config, n: us
             }
             ctl.cv.notify_all();
         }
+        let t9 = Instant::now();
         for h in handles {
-            let _ = h.join();
+            while !h.is_finished() && t9.elapsed() < WATCHDOG { std::thread::sleep(Duration::from_millis(1)); }
+            if h.is_finished() { let _ = h.join(); } else {
+                out.failures.push("C18\ta worker thread did not exit after its last call returned\t-".into());
+            }
         }
         // flush + drop under the watchdog
         let st = store.clone();
@@ -808,6 +818,7 @@ fn race_case(rng: &mut Rng, out: &mut Out, ctl: &Arc<Ctl>, wl: &Arc<WriteLog>, d
         g.push(Slot { phase: Phase::Idle, permit: false, cmd: None, exit: false });
     }
     let h = { let c = ctl.clone(); let st = store.clone(); std::thread::spawn(move || worker(0, c, st)) };
+    ctl.park_reads.store(true, O::SeqCst);
     let mode = rng.below(3); // 0: reader parked before the pin, 1: holding the pin, 2: before the pin + retirer parked at its marker write
     let pinned_mode = mode == 1;
     let delete = rng.chance(1, 3);
@@ -917,12 +928,18 @@ fn race_case(rng: &mut Rng, out: &mut Out, ctl: &Arc<Ctl>, wl: &Arc<WriteLog>, d
         }
         _ => out.failures.push("C18\ta reader parked in its device read never returned after being released\t-".into()),
     }
+    ctl.park_reads.store(false, O::SeqCst);
     {
         let mut g = ctl.slots.lock().unwrap();
         g[0].exit = true;
+        g[0].permit = true;
         ctl.cv.notify_all();
     }
-    let _ = h.join();
+    let t9 = Instant::now();
+    while !h.is_finished() && t9.elapsed() < WATCHDOG { std::thread::sleep(Duration::from_millis(1)); }
+    if h.is_finished() { let _ = h.join(); } else {
+        out.failures.push("C18\tthe reader thread of a race case never finished\t-".into());
+    }
     let st = store.clone();
     if !with_watchdog(move || { let _ = st.flush(); }) {
         out.failures.push("C18\tflush() after a read/retirement race did not return\t-".into());
@@ -962,7 +979,7 @@ fn main() {
     std::panic::set_hook(Box::new(|_| {}));
     feoxdb::verif::proto::fast_shutdown(true);
     feoxdb::verif::io::disable_ring(true);
-    let ctl = Arc::new(Ctl { slots: Mutex::new(vec![]), cv: Condvar::new() });
+    let ctl = Arc::new(Ctl { slots: Mutex::new(vec![]), cv: Condvar::new(), park_reads: std::sync::atomic::AtomicBool::new(false) });
     feoxdb::verif::sched::set_controller(Some(ctl.clone()));
     let mut rng = Rng::new(args.seed);
     let get = |k: &str, d: u64| -> u64 { args.extra.iter().find_map(|e| e.strip_prefix(&format!("{}=", k)).map(|v| v.parse().unwrap())).unwrap_or(d) };
